@@ -63,7 +63,11 @@ def _get_unmarshaller(  # type: ignore[return]
     node: graph.TypeNode,
     context: routines.ContextT,
 ) -> routines.AbstractMarshaller[T]:
-    if node.type in context:
+    # A deferred (cyclic) annotation is resolved lazily, when it is first called.
+    if node.cyclic:
+        return DelayedMarshaller(node.type, context=context, var=node.var)
+    #   ... and must not stand in for the real routine once we get to it.
+    if node.type in context and not isinstance(context[node.type], DelayedMarshaller):
         return context[node.type]
 
     for check, unmarshaller_cls in _HANDLERS.items():
